@@ -67,6 +67,9 @@ class C03(common.ModelProperty):
             rng, kinds=KINDS, always=("mk_edge",), multi_p=0.25
         )
         cfg["multi_no_repeat"] = True
+        if rng.random() < 0.12:
+            # vertices that define __eq__ (as identity) and so cannot be hashed
+            cfg["vertex_classes"] = ["Vertex", "UnhashableVertex"]
         if rng.random() < 0.25:
             # list-level calls on two-ended links too: edges with a third end,
             # with one end, with a vertex named twice (reachable through the
